@@ -27,6 +27,13 @@ int main(int argc, char** argv)
         vh::g_heap_ov0 = (long long) vh_heap_overruns;
         vh::Desc d = vh::Desc::parse(line);
         const std::string ty = d.s("ty", "d");
+        // rep=K: execute the same descriptor K times in this process (leak observation: live heap blocks at the
+        // start of the 2nd and 3rd execution must agree)
+        const int rep = (int) d.i("rep", 1);
+        for (int rr = 0; rr < rep; rr++)
+        {
+        vh::g_heap_live = (long long) vh_heap_live;
+        vh::g_heap_ov0 = (long long) vh_heap_overruns;
         if (false) {}
 #if !defined(VH_ONLY) || VH_ONLY == 1
         else if (ty == "f")
@@ -44,6 +51,7 @@ int main(int argc, char** argv)
         {
             fprintf(stderr, "scalar type %s not built into this driver\n", ty.c_str());
             return 3;
+        }
         }
         vh::out().flush();
     }
